@@ -8,6 +8,7 @@ import (
 	"bufio"
 	"bytes"
 	"encoding/json"
+	"errors"
 	"flag"
 	"fmt"
 	"hash/crc32"
@@ -40,6 +41,8 @@ func emit(e ev) { b, _ := json.Marshal(e); out.Write(b); out.WriteByte('\n') }
 var big = strings.Repeat("B", 70*1024)
 var mid = strings.Repeat("m", 700)
 
+var errProbe = errors.New("probe")
+
 type hk struct{}
 
 func (hk) Run(e *zerolog.Event, l zerolog.Level, m string) { e.Bool("hooked", true) }
@@ -70,13 +73,26 @@ func logOne(l *zerolog.Logger, g, k int, shape string) {
 		c := l.Hook(dropHook{}, yieldHook{})
 		l = &c
 	}
+	if shape == "flat" && (g+k)%3 == 1 {
+		// a logger with the stack flag logging an error: the flag must not outlive the event in the pooled object
+		c := l.With().Stack().Logger()
+		l = &c
+	}
 	e := l.Info().Int("g", g).Int("k", k)
 	switch shape {
 	case "flat":
 		if (g+k)%2 == 0 {
 			e = e.Str("pad", mid) // beyond the pooled 500 bytes: the buffer grows
 		}
+		if (g+k)%3 == 1 {
+			e = e.Err(errProbe)
+		}
 	case "dict":
+		if (g+k)%3 == 2 {
+			// an error inside a Dict() of a logger WITHOUT the stack flag: never a "stack" member, whoever used the pooled event before
+			e = e.Dict("d", zerolog.Dict().Int("x", g*100+k).Err(errProbe))
+			break
+		}
 		e = e.Dict("d", zerolog.Dict().Int("x", g*100+k).Str("s", "v"))
 	case "arr":
 		e = e.Array("a", zerolog.Arr().Int(g).Int(k).Str("z"))
@@ -253,6 +269,7 @@ func play(sc Script) bool {
 }
 
 func main() {
+	zerolog.ErrorStackMarshaler = func(err error) interface{} { return "stk" }
 	in := flag.String("scripts", "", "")
 	outp := flag.String("out", "conc.ndjson", "")
 	flag.Parse()
